@@ -115,6 +115,8 @@ READ_POOL = (["emodulus"] * 5 + ["fl1_max_ctc", "fl2_max_ctc", "fl3_max_ctc"] * 
              + ["deform", "aspect", "area_ratio", "index", "bright_avg", "bright_sd",
                 "bright_bc_avg", "bright_bc_sd", "bright_perc_10", "bright_perc_90",
                 "inert_ratio_cvx", "inert_ratio_prnc", "inert_ratio_raw", "tilt"])
+WARM = ["emodulus", "fl1_max_ctc", "fl2_max_ctc", "fl3_max_ctc", "area_um", "time",
+        "volume", "ml_class", "plug_s", "plug_n"]
 #: features populated by the same recipe call (documented: "all ancillary features
 #: that share the same method will also be populated automatically")
 SIBLINGS = [{"bright_avg", "bright_sd"}, {"bright_bc_avg", "bright_bc_sd"},
@@ -137,8 +139,9 @@ for _v in KEY_TO_FEATS.values():
 
 # ------------------------------------------------------------------- generator
 
-KEY_CATS = ([["med", "T", "visc", "vm", "lut"]] * 4 + [["px", "px", "px", "flow", "width", "region"]] * 3
-            + [["fr"]] + [["uk", "um"]] * 2 + [CT] * 3)
+KEY_CATS = ([["med", "T", "visc", "vm", "lut"]] * 4
+            + [["px", "px", "px", "flow", "width", "region"]] * 3
+            + [["fr"]] * 2 + [["uk", "um"]] * 2 + [CT] * 3)
 
 
 def _vidx(draw, key):
@@ -225,7 +228,9 @@ def st_spec(draw):
                                         ["ml_score_bbb"], []]))},
         "plug": draw(st.sampled_from([0, 0, 1, None])),
         "mask": draw(st.integers(0, 999)),
-        "warm": draw(st.lists(st.sampled_from(READ_POOL), max_size=6)),
+        # features NOT read right after construction (all others of WARM are, so that
+        # most later changes hit a cached value)
+        "cold": sorted(draw(st.lists(st.sampled_from(WARM), max_size=4, unique=True))),
         "ops": draw(st.lists(st_op(), min_size=4, max_size=40)),
     }
 
@@ -634,6 +639,10 @@ class Sim:
             old, new = snap[ing], self.ing_state(ing)
             if old == new:
                 continue
+            if f == "emodulus" and ing == "vm" and snap["_scenario"].startswith("B") \
+                    and self.emod_scenario() not in ("A", "C", "C+temp"):
+                # the viscosity model is no input of scenario B (docs)
+                continue
             if ing in CT:
                 # is it an element of the crosstalk matrix of the recorded channels?
                 rec_ch = self.has(f"fl{ing[2]}_max") and self.has(f"fl{ing[3]}_max")
@@ -671,6 +680,8 @@ class Sim:
         for g in fs:
             self.cached.add(g)
             self.snap[g] = {ing: self.ing_state(ing) for ing in ING.get(g, ())}
+            if g == "emodulus":
+                self.snap[g]["_scenario"] = self.emod_scenario()
 
     def stale_class(self, f, avail_now):
         """discriminator for membership checks"""
@@ -684,8 +695,9 @@ class Sim:
     def run(self):
         rec = self.rec
         rec.cls("fmt:" + self.fmt)
-        for f in self.spec["warm"]:
-            self.op_read(f, child=False)
+        for f in WARM:
+            if f not in self.spec["cold"]:
+                self.op_read(f, child=False)
         for op in self.spec["ops"]:
             k = op[0]
             rec.cls("op:" + k)
@@ -862,6 +874,12 @@ class Sim:
                                   f"recipe gives {show(('ok', exp))}; cfg={self.cfg}")
         if out_l[0] == "ok" and agree:
             self.mark_read(f)
+        if f == "emodulus" and has_l and out_l != ("exc", "KeyError"):
+            # the cache key of emodulus is computed from area_um and deform, i.e. an
+            # attempt to read emodulus reads (and caches) these two
+            for g in ("area_um", "deform"):
+                if g not in self.data and self.avail(g):
+                    self.mark_read(g)
 
     def check_contains(self, f, has_l, has_f, stale, child):
         where = "child" if child else "ds"
